@@ -90,6 +90,8 @@ def root_of(t: T) -> T:
     while True:
         if t.op == "upd":
             t = t.args[0]
+        elif t.op == "assume":
+            t = t.args[1]
         elif t.op == "loopvar":
             t = t.args[2]
         elif t.op == "loopout":
@@ -175,6 +177,8 @@ def show(t, depth=0, maxdepth=12) -> str:
         return "{" + ", ".join(f"{s(k)}: {s(v)}" for k, v in a[0]) + "}"
     if op == "elem":
         return f"elem({s(a[0])})"
+    if op == "assume":
+        return s(a[1])
     if op == "upd":
         return f"upd({s(a[0])}, {s(a[1])}, {s(a[2])})"
     return f"{op}(" + ", ".join(s(x) for x in a) + ")"
@@ -313,6 +317,11 @@ def merge_states(a: State, b: State):
     else:
         cond = mk("nondet")
     out = State({}, {}, a.pc[:n])
+    # facts that hold on side b beyond "not cond" (e.g. `elif isinstance(x, list)` when the final else raises)
+    nega = {neg(x).uid for x in ra}
+    extra_b = [l for l in rb if l.uid not in nega and l.op not in ("inloop", "exc")] if ra else []
+    negb = {neg(x).uid for x in rb}
+    extra_a = [l for l in ra if l.uid not in negb and l.op not in ("inloop", "exc")] if (not ra and rb) else []
     for src_a, src_b, dst, missing in ((a.loc, b.loc, out.loc, True), (a.heap, b.heap, out.heap, False)):
         for k in set(src_a) | set(src_b):
             va, vb = src_a.get(k), src_b.get(k)
@@ -323,6 +332,8 @@ def merge_states(a: State, b: State):
                 va = mk("undef", k) if missing else mk("attr", k[0], k[1])
             if vb is None:
                 vb = mk("undef", k) if missing else mk("attr", k[0], k[1])
+            if extra_b and len(ra) == 1:
+                vb = mk("assume", conj(extra_b), vb)
             dst[k] = ite(cond, va, vb)
     return out, cond
 
@@ -1192,6 +1203,19 @@ class Evaluator:
                     return folded
         elif fterm.op in ("closure", "lambda", "lam"):
             return self._call_closure(fterm, args, kwargs, st, node, star)
+        elif fterm.op == "ite" and all(x.op in ("boundmethod", "global", "closure", "lam", "lambda") for x in fterm.args[1:]):
+            # a callable chosen by a branch (method value stored in a local): follow both alternatives
+            c, fa, fb = fterm.args
+            sa_, sb_ = st.fork(c), st.fork(neg(c))
+            ra = self._call(fa, list(args), list(kwargs), sa_, node, star)
+            rb = self._call(fb, list(args), list(kwargs), sb_, node, star)
+            merged, cond = merge_states(sa_, sb_)
+            st.loc.clear()
+            st.loc.update(merged.loc)
+            st.heap.clear()
+            st.heap.update(merged.heap)
+            st.pc = merged.pc
+            return ite(c, ra, rb)
 
         if target is not None:
             f, ctx, sself = target
@@ -1218,6 +1242,7 @@ class Evaluator:
                     st.heap.clear()
                     st.heap.update(_h)
                     st.pc = final.pc
+                    self._propagate_mutations(st, bound, final)
                     ev.data["result"] = ret
                     return ret
                 ev.data["inlined"] = False
@@ -1229,6 +1254,24 @@ class Evaluator:
         self._emit("call", node, st, callee=_callee_name(fterm), fterm=fterm, args=tuple(args), kwargs=tuple(kwargs),
                    recv=recv, inlined=False, resolved=False, result=res)
         return res
+
+    def _propagate_mutations(self, st: State, bound: dict, final: State):
+        """In-place mutation of an argument object by an inlined callee (x[k] = v on a parameter) is made
+        visible to the caller's variables / attributes that hold the same object."""
+        for p, argt in bound.items():
+            fin = final.loc.get(p)
+            if fin is None or fin is argt or fin.op not in ("upd", "ite", "loopout"):
+                continue
+            if not any(x is argt for x in subterms(fin)):
+                continue
+            if root_of(fin) is not argt and fin.op != "ite" and fin.op != "loopout":
+                continue
+            for k, v in list(st.loc.items()):
+                if v is argt:
+                    st.loc[k] = fin
+            for k, v in list(st.heap.items()):
+                if v is argt:
+                    st.heap[k] = fin
 
     def _class_name(self, t: T):
         if t.op == "global" and t.args[0] in self.prog.classes:
